@@ -59,7 +59,8 @@ ERR_SOURCES = [
     "={'a': 1/0}", "=[{'a': 1/0}]", "={'a': [{'b': 1/0}]}", "={'a': {'b': {'c': [1, {'d': inputs.nope}]}}}",
     "=overlay({}, {'x': 1/0})", "=overlay({'k': {'z': 1}}, {'k': {'y': inputs.nope}})",
     "=[1, 2].map(x, {'v': x / 0})", "=[1, 2].all(x, x/0 == 1)", "=[1, 2].exists(x, x/0 == 1)",
-    # errors whose tree celpy's tree_dump cannot print (it raises IndexError on them)
+    # errors whose tree celpy's tree_dump cannot print (it raises IndexError on them): regression for
+    # /repo 4ee1f6b, before which such an error, when raised, escaped koreo's except handlers
     "=inputs.nope == []", "=inputs.nope == {}", "=inputs.nope ? 1 : {}", "={'a': {}}.b", "=size(inputs.nope + [])",
 ]
 RAISE_SOURCES = ["=[1].map(x, x/0)", "=[1, 2].filter(x, x/0 == 1)", "=[1, 2].map(x, to_ref({}))", "={1/0: 1}",
@@ -423,7 +424,7 @@ def oracle_vf(case, out):
 
 
 def term_vf(case, out) -> str:
-    placeholder = ["raise", True]
+    placeholder = ["raise"]
 
     def site(name):
         if not out["has"][name]:
